@@ -31,6 +31,9 @@ use std::sync::atomic::{AtomicI64, AtomicU64, Ordering};
 use std::sync::{Arc, Barrier, Mutex};
 use std::time::{Duration, Instant};
 
+#[path = "../c12/share.rs"]
+mod share;
+
 // ------------------------------------------------------------ tracked token
 
 static LIVE: AtomicI64 = AtomicI64::new(0);
@@ -989,6 +992,10 @@ fn main() {
             let s = gen_script(&mut Prng::for_case(seed, index));
             println!("// {} {}\n{}", s.family, s.flags, s.src);
         }
+        Some("worker") if a.get(2).map(|s| s.as_str()) == Some("share") => {
+            // worker share <class> <seed> <index> <tier> <attempt>
+            share::worker_main(&a);
+        }
         Some("worker") => {
             // worker stress <seed> <tier> <from> <n>
             let seed: u64 = a[3].parse().unwrap();
@@ -1016,6 +1023,10 @@ fn main() {
                 .or_else(|| std::env::var("ROTO_REPO").ok().map(PathBuf::from))
                 .unwrap_or_else(|| PathBuf::from("/repo"));
             let mut rep = Report::default();
+            // state shared between threads through the safe API: lists, registered
+            // closures / constants, into_func closures (one worker process per case)
+            let focus = share::parse_focus(arg_after(&a, "--focus"));
+            share::run_pass(seed, &tiername, &focus, 0, 0, &mut rep, &mut vec![], None);
             probes(&repo, arg_after(&a, "--fn-bounds"), &mut rep);
             let t = tier(&tiername);
             let seed_s = seed.to_string();
@@ -1027,6 +1038,17 @@ fn main() {
                 &mut rep,
                 |rep, idx, ended| on_crash(rep, seed, &tiername, idx, ended),
             );
+            rep.emit();
+        }
+        Some("share") => {
+            // share <seed> <tier> [--focus c1,c2] [--budget-s N]: the share classes only, new
+            // indices and escalating attempts until a violation is found or the budget is used
+            let seed: u64 = a[2].parse().unwrap();
+            let tiername = a[3].clone();
+            let focus = share::parse_focus(arg_after(&a, "--focus"));
+            let budget = arg_after(&a, "--budget-s").and_then(|s| s.parse().ok()).unwrap_or(90u64);
+            let mut rep = Report::default();
+            share::search(seed, &tiername, &focus, Duration::from_secs(budget), &mut rep);
             rep.emit();
         }
         Some("stress") => {
@@ -1055,6 +1077,8 @@ fn main() {
             if case["kind"] == "probe" {
                 let repo = std::env::var("ROTO_REPO").map(PathBuf::from).unwrap_or_else(|_| PathBuf::from("/repo"));
                 probes(&repo, None, &mut rep);
+            } else if case["kind"] == "share" {
+                share::replay(&case, &mut rep);
             } else {
                 let seed = case["seed"].as_u64().unwrap_or(1);
                 let index = case["index"].as_u64().unwrap_or(0);
@@ -1074,7 +1098,7 @@ fn main() {
             rep.emit();
         }
         _ => {
-            eprintln!("usage: c12 run <seed> <tier> [--repo p] [--fn-bounds b] | replay <json> | dump <src> | gen <seed> <index>");
+            eprintln!("usage: c12 run <seed> <tier> [--repo p] [--fn-bounds b] [--focus c1,c2] | share <seed> <tier> [--focus c1,c2] [--budget-s N] | replay <json> | dump <src> | gen <seed> <index>");
             std::process::exit(64);
         }
     }
